@@ -941,4 +941,21 @@ fn spawn_async_ao_list_in_task'''),
         ('plain-elements-reversed', 'brush-core/src/interp.rs', "                    for value in values {\n                        elements.push((None, value));\n                    }", "                    for value in values {\n                        elements.insert(0, (None, value));\n                    }"),
         ('value-expanded-before-key', 'brush-core/src/interp.rs', "                if key.is_some() {\n                    let value =\n                        expansion::basic_expand_assignment_word(shell, params, unexpanded_value)\n                            .await?;\n                    elements.push((key, value));", "                if key.is_some() {\n                    let value =\n                        expansion::basic_expand_assignment_word(shell, params, unexpanded_key.as_ref().unwrap())\n                            .await?;\n                    elements.push((key, value));"),
     ],
+    'U46': [
+        ('empty-exported-value-not-handed-to-the-child', 'brush-core/src/commands.rs', "            if v.value().is_set() {\n                cmd.env(", "            if v.value().is_set() && !v.value().to_cow_str(context.shell).is_empty() {\n                cmd.env("),
+        ('export-append-forgets-the-attribute', 'brush-builtins/src/export.rs', "                    if self.unexport {\n                        variable.unexport();\n                    } else {\n                        variable.export();\n                    }\n                    return Ok(ExecutionResult::success());", "                    if self.unexport {\n                        variable.unexport();\n                    }\n                    return Ok(ExecutionResult::success());"),
+        ('export-n-with-a-value-still-exports', 'brush-builtins/src/export.rs', "                    |var| {\n                        if self.unexport {\n                            var.unexport();\n                        } else {\n                            var.export();\n                        }", "                    |var| {\n                        if self.unexport && false {\n                            var.unexport();\n                        } else {\n                            var.export();\n                        }"),
+        ('export-name-on-an-existing-variable-does-nothing-with-n', 'brush-builtins/src/export.rs', "                    if self.unexport {\n                        variable.unexport();\n                    } else {\n                        variable.export();\n                    }\n                }\n            }", "                    if !self.unexport {\n                        variable.export();\n                    }\n                }\n            }"),
+    ],
+    'U48': [
+        ('temporary-assignment-shadows-a-readonly-variable-again', 'brush-core/src/interp.rs', "        if existing_value.is_readonly() {\n            return Err(error::ErrorKind::ReadonlyVariable.into());\n        }\n", ""),
+        ('assignment-drops-the-export-attribute', 'brush-core/src/interp.rs', "            if export {\n                existing_value.export();\n            }\n\n            // That's it!", "            if export {\n                existing_value.export();\n            } else {\n                existing_value.unexport();\n            }\n\n            // That's it!"),
+        ('new-variable-goes-to-the-global-scope', 'brush-core/src/interp.rs', "    shell.env_mut().add(variable_name, new_var, creation_scope)\n}", "    shell.env_mut().add(variable_name, new_var, EnvironmentScope::Global)\n}"),
+        ('temporary-assignment-forgets-export', 'brush-core/src/interp.rs', "    if export {\n        new_var.export();\n    }\n\n    shell.env_mut().add(", "    shell.env_mut().add("),
+    ],
+    'U49': [
+        ('new-local-does-not-inherit-export', 'brush-builtins/src/declare.rs', "            {\n                var.export();\n            }\n\n            self.apply_attributes_before_update(&mut var)?;", "            {\n            }\n\n            self.apply_attributes_before_update(&mut var)?;"),
+        ('declare-in-function-creates-a-global', 'brush-builtins/src/declare.rs', "            let scope = if create_var_local {\n                EnvironmentScope::Local", "            let scope = if create_var_local && matches!(verb, DeclareVerb::Local) {\n                EnvironmentScope::Local"),
+        ('inherited-export-overrides-the-flags', 'brush-builtins/src/declare.rs', "            self.apply_attributes_after_update(&mut var, verb)?;\n\n            let scope = if create_var_local {", "            self.apply_attributes_after_update(&mut var, verb)?;\n            if create_var_local { var.export(); }\n\n            let scope = if create_var_local {"),
+    ],
 }
